@@ -6,6 +6,7 @@ Model: exact real arithmetic, eps rounding (so a reading can round to exactly 0 
 every division by a symbolic value forks on denominator == 0 (-> ZeroDivisionError, as CPython), sqrt forks on a
 negative argument (-> ValueError)."""
 import math
+from datetime import timedelta
 
 from harness.common import *  # noqa
 
@@ -27,7 +28,46 @@ def obligations(tier):
             nf = max(3, w + 1)
             obs.append(Ob(f"{spec_name((kind, name, kw))}/fill-gap/n={nf}", dict(spec=[kind, name, kw], n=nf, mode="fill"), cfg,
                           weight=nf * (20 if name in EXTRA else 1), budget_s=900 if tier == "quick" else 7200, max_paths=200000))
+    # floating-point lemma for the one kernel whose DOMAIN depends on the sign of a cancelling sum (sqrt of the running
+    # variance): every arithmetic result carries the standard relative error, and sqrt forks on a negative argument
+    for name, kw in ((("STDEV", dict(period=2)), ("STDEV", dict(period=3)), ("BBANDS", dict(period=2)), ("STDEVTHRES", dict(period=2))) if tier == "thorough" else ()):
+        n = kw["period"] + 2
+        obs.append(Ob(f"float-error-model/sqrt-domain/{spec_name(('ind', name, kw))}/n={n}", dict(spec=["ind", name, kw], n=n), dict(TOT, round="ideal", fp_err=True, timeout_ms=5000, fresh_timeout_ms=60000),
+                      fn="run_fp_sqrt", weight=60, budget_s=600 if tier == "quick" else 3600, max_paths=20000, selfcheck=False))
     return obs
+
+
+SCALES = [1.0, 0.1, 0.3, 0.7, 1.1, 100.1, 1.0 / 3.0, 1e-3, 12345.678, 0.007, 3.3, 9.99]
+
+
+def run_fp_sqrt(ctx, P):
+    """symbolic: calculate() under the floating-point error model - a path on which sqrt receives a negative argument
+    is a candidate. concrete (replay): the candidate's candle pattern is tried under a fixed family of rescalings
+    (what matters for cancellation is the bit pattern of the values, which the real-valued model cannot choose)."""
+    _, _, Candle, _, _ = lib()
+    spec = tuple(P["spec"][:3])
+    n = P["n"]
+    cs = mk_candles(ctx, n)
+    if ctx.symbolic:
+        ind = build_any(spec, candles=cs)
+        ind.calculate()
+        ctx.observe("readings", ind.as_list())
+        return
+    volatile = [101.37, 99.91, 103.4, 98.26, 104.73, 97.12, 102.58, 100.05]
+    for s in SCALES:
+        for reps in (1, 4, 12):     # also with the last candle repeated (a longer flat tail)
+            for prefix in (0, 8):   # and after a stretch of volatile prices (the running sums then carry rounding residue)
+                scaled = []
+                for j in range(prefix):
+                    v = volatile[j] * s
+                    scaled.append(Candle(v, v * 1.01, v * 0.99, v, 5, timestamp=cs[0].timestamp - timedelta(minutes=prefix - j)))
+                scaled += [Candle(c.open * s, c.high * s, c.low * s, c.close * s, c.volume, timestamp=c.timestamp) for c in cs]
+                last = scaled[-1]
+                for j in range(1, reps):
+                    scaled.append(Candle(last.open, last.high, last.low, last.close, last.volume, timestamp=last.timestamp + timedelta(minutes=j)))
+                ind = build_any(spec, candles=[])
+                for c in scaled:
+                    ind.append(c)
 
 
 def finite_leaf(x):
@@ -85,7 +125,7 @@ def run(ctx, P):
 META = dict(
     bounds=dict(quick="n = warm-up+4 candles (value-branching indicators +1..3), smallest legal periods; batch calculate() over symbolic candles, and one-by-one appends with T1 gap filling over a stream with a two-bucket gap (fill candles flat, zero volume, neighbours symbolic)",
                 thorough="n+1, periods 2 and 3, fill variant for every indicator"),
-    stubs=["float arithmetic -> exact real arithmetic (IEEE cancellation outside the claim)", "round(x,nd) -> fresh r, |r-x|<=0.5*10^-nd, monotone at -100/0/100", "x/sym forks on sym==0 -> ZeroDivisionError", "sqrt forks on negative -> ValueError", "ADX: mul/div abstracted during path exploration, exact at assertions"],
+    stubs=["float arithmetic -> exact real arithmetic (IEEE cancellation outside the claim)", "round(x,nd) -> fresh r, |r-x|<=0.5*10^-nd, monotone at -100/0/100", "x/sym forks on sym==0 -> ZeroDivisionError", "sqrt forks on negative -> ValueError", "ADX: mul/div abstracted during path exploration, exact at assertions", "float-error-model obligations (STDEV/BBANDS/STDEVTHRES): every arithmetic result = exact*(1+d), |d|<=2^-52, fresh d per operation; max/min/abs/comparisons exact; a sat answer is only a candidate and is confirmed by replaying its candle pattern under 12 rescalings x 3 tail lengths x with/without a volatile prefix (thorough tier only)"],
     assumptions=["0 < low <= open,close <= high <= 1e6, 0 <= volume <= 1e9 (flat, zero-volume, repeated candles inside)", "non-finite floats can only arise from division by zero (raises) or overflow (excluded by the bounds)"],
     explanation="every feasible path of the real calculation over symbolic candles; a raising path yields a model that is replayed on the real code",
 )
